@@ -297,6 +297,7 @@ fn drive_writer(writer: &str, inp: &Input, spec: &str, sink: FaultSink, notes: &
                     notes.push("finish-ok-after-error".into());
                 }
             }
+            sink.mark_done();
             res
         }};
     }
@@ -323,13 +324,14 @@ fn drive_writer(writer: &str, inp: &Input, spec: &str, sink: FaultSink, notes: &
                     break;
                 }
             }
+            sink.mark_done();
             if res.is_err() && sink.failed() {
                 // `Writer::into_inner` after a failed write on a dead sink
                 let r = std::panic::catch_unwind(std::panic::AssertUnwindSafe(move || {
                     let _ = w.into_inner();
                 }));
                 if r.is_err() {
-                    notes.push("csv-into-inner-panics-after-error".into());
+                    notes.push("kf:csv-into-inner-panic".into());
                 }
             }
             res
@@ -356,6 +358,7 @@ fn drive_writer(writer: &str, inp: &Input, spec: &str, sink: FaultSink, notes: &
                 if res.is_err() && sink.failed() && check_finish && w.finish().is_ok() {
                     notes.push("finish-ok-after-error".into());
                 }
+                sink.mark_done();
                 res
             }
             if writer == "json" {
